@@ -1482,18 +1482,61 @@ func ruleRelevantIndex(c *report.Ctx, floor int) {
 // ruleSelectionResetOnDelete (C19): removing the selected keystore from the cache clears the selection.
 func ruleSelectionResetOnDelete(c *report.Ctx) {
 	p := c.P
-	c.Rule("selection-reset-on-delete", "DeleteKeystore clears km.currentKeystore when it names the deleted wallet: readers of the selection index managedKeystores[currentKeystore.accountName] without a nil test and rely on 'selected ⇒ cached'", 1)
+	c.Rule("selection-reset-on-delete", "DeleteKeystore clears km.currentKeystore when it names the deleted wallet (itself or through the helper that drops the cache entry): readers of the selection index managedKeystores[currentKeystore.accountName] without a nil test and rely on 'selected ⇒ cached'", 1)
 	f := fn(c, pkgKeystore, "KeystoreManager", "DeleteKeystore")
 	if f == nil {
 		return
 	}
-	var dels []ssa.Instruction
-	an.Instrs(f, func(in ssa.Instruction) {
+	isDelete := func(in ssa.Instruction) bool {
 		cc := an.CallOf(in)
 		if cc == nil {
-			return
+			return false
 		}
-		if b, ok := cc.Value.(*ssa.Builtin); ok && b.Name() == "delete" && strings.HasSuffix(p.Desc(cc.Args[0]), "KeystoreManager.managedKeystores") {
+		b, ok := cc.Value.(*ssa.Builtin)
+		return ok && b.Name() == "delete" && strings.HasSuffix(p.Desc(cc.Args[0]), "KeystoreManager.managedKeystores")
+	}
+	isResetStore := func(in ssa.Instruction) bool {
+		st, ok := in.(*ssa.Store)
+		if !ok || !an.IsNilConst(st.Val) {
+			return false
+		}
+		fa, ok := st.Addr.(*ssa.FieldAddr)
+		return ok && derefStructT(fa.X.Type()).Field(fa.Field).Name() == "currentKeystore"
+	}
+	calleeOf := func(in ssa.Instruction) *ssa.Function {
+		if cc := an.CallOf(in); cc != nil {
+			if cal := cc.StaticCallee(); cal != nil && an.FuncPkg(cal) != nil && an.FuncPkg(cal).Path() == pkgKeystore {
+				return cal
+			}
+		}
+		return nil
+	}
+	// the steps may be factored into helpers of the keystore package
+	var contains func(g *ssa.Function, pred func(ssa.Instruction) bool, depth int) bool
+	contains = func(g *ssa.Function, pred func(ssa.Instruction) bool, depth int) bool {
+		if g == nil || g.Blocks == nil || depth > 2 {
+			return false
+		}
+		found := false
+		an.Instrs(g, func(in ssa.Instruction) {
+			if found {
+				return
+			}
+			if pred(in) {
+				found = true
+				return
+			}
+			if cal := calleeOf(in); cal != nil && cal != g && contains(cal, pred, depth+1) {
+				found = true
+			}
+		})
+		return found
+	}
+	var dels []ssa.Instruction
+	an.Instrs(f, func(in ssa.Instruction) {
+		if isDelete(in) {
+			dels = append(dels, in)
+		} else if cal := calleeOf(in); cal != nil && cal != f && contains(cal, isDelete, 0) {
 			dels = append(dels, in)
 		}
 	})
@@ -1502,15 +1545,18 @@ func ruleSelectionResetOnDelete(c *report.Ctx) {
 		return
 	}
 	isReset := func(in ssa.Instruction) bool {
-		st, ok := in.(*ssa.Store)
-		if !ok || !an.IsNilConst(st.Val) {
-			return false
+		if isResetStore(in) {
+			return true
 		}
-		fa, ok := st.Addr.(*ssa.FieldAddr)
-		return ok && derefStructT(fa.X.Type()).Field(fa.Field).Name() == "currentKeystore"
+		cal := calleeOf(in)
+		return cal != nil && cal != f && contains(cal, isResetStore, 0)
 	}
 	for i, d := range dels {
 		key := siteKey(f, "delete=>currentKeystore-reset", i+1)
+		if cal := calleeOf(d); cal != nil && contains(cal, isResetStore, 0) {
+			c.OK(key, "the helper that drops the entry also clears the selection", posOf(c, d))
+			continue
+		}
 		idx := 0
 		for k, in := range d.Block().Instrs {
 			if in == d {
@@ -1535,7 +1581,7 @@ func ruleSelectionResetOnDelete(c *report.Ctx) {
 			GoalReturn: func(r *ssa.Return, pred *ssa.BasicBlock) bool { return true },
 		}
 		if w := s.Run(d.Block(), idx+1, nil); w != nil {
-			c.Fail(key, "after delete(managedKeystores, id) DeleteKeystore can return with currentKeystore still naming the deleted wallet: GetManagedAddressByScriptHashInCurrent (ValidateAddress) then indexes a nil *AddrManager and panics instead of reporting that no wallet is in use", posOf(c, d), w...)
+			c.Fail(key, "after the wallet is dropped from managedKeystores DeleteKeystore can return with currentKeystore still naming it: GetManagedAddressByScriptHashInCurrent (ValidateAddress) then indexes a nil *AddrManager and panics instead of reporting that no wallet is in use, and restoring the same mnemonic silently selects the half-imported wallet", posOf(c, d), w...)
 		} else {
 			c.OK(key, "reset or provably not the selected wallet on every path", posOf(c, d))
 		}
